@@ -186,3 +186,96 @@ def r0521(P, u, E, rep):
                'after a %s has been parsed for a sub-object of type %s that an earlier initializer had already touched, %d descendant field(s) still hold the EARLIER initializer '
                '(%s%s): with `{[0].a = 1, [0] = {.b = 2}}` (or `.s[2] = \'x\', .s = "a"`) both back ends emit the earlier value where C11 6.7.9p19/p21 require zero'
                % (form.replace('-', ' '), root, len(bad), ', '.join(bad[:4]), ', ...' if len(bad) > 4 else ''), where=where, facts={'tokens': ' '.join(texts), 'stale': bad})
+
+
+# ------------------------------------------------------------------------------------------------
+# R05.22 (C11 6.7.9p17, p19): inside the braced list of a union every designated initializer names a member of the union anew; the list is
+# accepted and the member designated LAST is the one selected, initialised by the expression parsed for it.  Same concrete worlds.
+# ------------------------------------------------------------------------------------------------
+UNION_LISTS = [
+    ('two-designators', ['{', '.', 'b', '=', '{', 'v', '}', ',', '.', 'a', '=', 'v', '}', ''], 'a'),
+    ('two-designators-trailing-comma', ['{', '.', 'a', '=', 'v', ',', '.', 'b', '=', '{', 'v', '}', ',', '}', ''], 'b'),
+    ('one-designator', ['{', '.', 'b', '=', '{', 'v', '}', '}', ''], 'b'),
+    ('same-member-twice', ['{', '.', 'a', '=', 'v', ',', '.', 'a', '=', 'v', '}', ''], 'a'),
+]
+
+
+def r0522(P, u, E, rep):
+    rep.rule('R05.22', 'the braced list of a union accepts any number of designated initializers; each names a member of the union anew and the member designated last is '
+             'the selected one, holding the expression parsed for it (C11 6.7.9p17, p19)', floor=4)
+    fn = 'initializer2'
+    if fn not in u.functions or 'struct_designator' not in u.functions:
+        raise AnalysisBroken('anchor initializer2 / struct_designator vanished')
+    where = '%s:%d' % (U, u.functions['union_initializer'].line if 'union_initializer' in u.functions else u.functions[fn].line)
+    for form, texts, last in UNION_LISTS:
+        key = '%s:%s:union-list/%s' % (U, fn, form)
+        it = _interp(P, u, E)
+
+        def m_sdesig(it_, ctx, n, a):
+            T = settle(it_, a[1])
+            if not isinstance(T, Obj) or T.meta.get('text') != '.':
+                raise Unsupported('struct_designator not entered at `.`')
+            ident = T.fields['next']
+            m = a[2].fields['members'] if isinstance(a[2], Obj) else 0
+            while isinstance(m, Obj) and m.label.split('.')[-1] != ident.meta.get('text'):
+                m = m.fields['next']
+            if not isinstance(m, Obj):
+                raise NoReturn('error_tok', [ident, 'struct has no such member'], n.line)
+            if isinstance(a[0], _Ref):
+                a[0].place.set(it_, ident.fields['next'])
+            ctx.emit('sdesig', m, n.line)
+            return m
+        it.models['struct_designator'] = m_sdesig
+        st = {}
+
+        def mk(ctx, texts=texts, st=st):
+            W = _types(E)
+            ctx.world = W
+            st['nodes'] = []
+            st['stale_expr'] = Obj('Node', lazy=True, label='expr-of-the-earlier-initializer')
+            st['stale_mem'] = Obj('Member', lazy=True, label='member-selected-by-the-earlier-initializer')
+            st['root'] = _init_tree(E, W['union'], 0, 0, 'init', st['nodes'])
+            st['W'] = W
+            from .rules.c05 import _Slot
+            ctx.slot = _Slot()
+            return [_Ref(ctx.slot), _tokens(E, texts, W['lit'])[0], st['root']]
+        try:
+            res = it.explore(fn, mk)
+        except (Unsupported, AnalysisBroken) as e:
+            rep.undecided('R05.22', key, 'initializer2 over the concrete union world is not interpretable: %s' % e, where=where)
+            continue
+        rets = [(ctx, out) for ctx, out in res if out[0] == 'ret']
+        errs = [(ctx, out) for ctx, out in res if out[0] == 'noreturn' and out[1] in ('error_tok', 'error_at', 'error')]
+        spelled = ' '.join(t for t in texts if t)
+        if not rets and len(errs) == 1 and len(res) == 1:
+            msg = errs[0][1][2][1] if len(errs[0][1][2]) > 1 and isinstance(errs[0][1][2][1], str) else '?'
+            rep.ob('R05.22', key + '/rejected', False, 'the valid union initializer `%s` is rejected ("%s"): a braced union list takes only one designated initializer, '
+                   'a second designator (`union U g = {.a = 1, .b = 2};`, C11 6.7.9p17/p19: the last one wins) is a syntax error' % (spelled, msg), where=where, facts={'tokens': spelled})
+            continue
+        if len(rets) != 1 or len(res) != 1:
+            rep.undecided('R05.22', key, 'expected exactly one path for the tokens %s, got %d (%d accepting)' % (spelled, len(res), len(rets)), where=where)
+            continue
+        ctx, out = rets[0]
+        root = st['root']
+        W = st['W']
+        want = W['union'].fields['members']
+        while isinstance(want, Obj) and want.label.split('.')[-1] != last:
+            want = want.fields['next']
+        asg = [e[1] for e in ctx.events if e[0] == 'assign']
+        sel = settle(it, root.fields.get('mem'))
+        ok, construct, msg = True, 'last-designator-selects', ''
+        if sel is not want:
+            ok = False; construct = 'last-designated-member-not-selected'
+            msg = 'after `%s` the selected member of the union (init->mem) is %s, not the member designated last (.%s)' % (spelled, getattr(sel, 'label', sel), last)
+        else:
+            ch = root.fields['children'].elems[want.fields['idx']]
+            leaf = ch
+            while isinstance(leaf.fields.get('children'), Arr):
+                leaf = settle(it, leaf.fields['children'].elems[0])
+            if not asg or settle(it, leaf.fields.get('expr')) is not asg[-1]:
+                ok = False; construct = 'last-designated-member-not-initialised'
+                msg = 'after `%s` the member designated last (.%s) does not hold the expression parsed for it' % (spelled, last)
+            elif settle(it, ctx.slot.v) is None or getattr(settle(it, ctx.slot.v), 'meta', {}).get('text') != '':
+                ok = False; construct = 'cursor-not-behind-the-list'
+                msg = 'after `%s` the token cursor is not behind the closing brace' % spelled
+        rep.ob('R05.22', key + '/' + construct, ok, msg, where=where, facts={'tokens': spelled})
